@@ -182,3 +182,22 @@ Theorem C07_shared_is_marked_prescanned :
     exists p, r_orig r = Some p /\ sh_payload s = set_prescanned p.
 Proof. exact shared_is_marked. Qed.
 Print Assumptions C07_shared_is_marked_prescanned.
+
+(* ------------------------------------------------------------------ the "if" direction as the property states it
+   OPEN known findings (coq/C07/Refuted.v: if_direction_refuted_sibling, if_direction_refuted_retry): the
+   statement below does not hold — a dual-stack message is dropped as a whole when one family cannot be
+   built, and a registration tracked and then rejected blocks re-admission until it expires.  It is kept
+   visible; the part that holds is C07_if_direction_partial (and the two iff theorems above). *)
+Definition C07_if_direction_full_statement : Prop :=
+  forall select params_ok dst_port geoip_ok covert_check live,
+    if_direction_statement select params_ok dst_port geoip_ok covert_check live.
+
+Theorem C07_if_direction_partial :
+  forall select params_ok dst_port geoip_ok covert_check live cfg st w p v6 r,
+    w_payload w = Some p -> message_ok select params_ok dst_port geoip_ok cfg w p = true ->
+    want cfg w p v6 = true ->
+    new_reg select params_ok dst_port geoip_ok cfg w p v6 = Ok r ->
+    admissible covert_check live cfg (state_before select params_ok dst_port geoip_ok covert_check live cfg st w p v6) r = true ->
+    exists r', In (Announce r') (snd (process select params_ok dst_port geoip_ok covert_check live cfg st w)).
+Proof. exact if_direction_partial. Qed.
+Print Assumptions C07_if_direction_partial.
